@@ -205,7 +205,11 @@ fn make_coll(src: &mut Src, pool: &[Coll], tag: f64, rep: &mut Report) -> Coll {
         }
         _ => {
             // multi-descriptor collector; biased so that the first descriptor is fresh and a later one collides
-            let n = 2 + src.below(2);
+            let mut n = 2 + src.below(2);
+            if n == 3 && src.chance(40) {
+                // occasionally many descriptors in one collector
+                n += src.below(12);
+            }
             let mut specs: Vec<DSpec> = vec![];
             for i in 0..n {
                 let s = if i == 0 && src.chance(170) {
